@@ -340,7 +340,7 @@ type sim struct {
 	howGot        map[string]string // how each service came to its current addresses (Allocate | AllocateFromPool | Assign | AddFamily)
 	blame         map[string]bool   // during a restart: victim -> whoever held its recorded address when the victim's handler ran had a record itself
 	thefts        map[string]bool   // during a restart: victim -> the service that took its recorded address had a record itself
-	fewer         map[string]bool   // during a restart: victim -> a service with a record of FEWER addresses than the victim's held / took its address (the start-up order handles services with more recorded addresses first: the listed ordering defect cannot explain that)
+	fewer         map[string]bool   // during a restart: victim -> when the victim was processed, a service with a record of FEWER addresses than the victim's held its address (the start-up order handles services with more recorded addresses first: the listed ordering defect cannot explain that)
 }
 
 func (s *sim) setViol(v *vw.Violation) {
@@ -657,9 +657,6 @@ func (s *sim) afterService(name string, svc *v1.Service, pre vw.Holders, preIPs 
 					if a == b && !containsAddr(ipsToAddrs(s.c.ips.IPs(o)), a) && !containsAddr(preIPs, a) {
 						if had := len(s.recR[name]) > 0; had || !s.thefts[o] {
 							s.thefts[o] = had
-						}
-						if n := len(s.recR[name]); n > 0 && n < len(as) {
-							s.fewer[o] = true
 						}
 					}
 				}
@@ -1432,9 +1429,6 @@ func (s *sim) restartJudge() {
 						}
 						if len(R[o]) > 0 {
 							thiefHadRecord = true
-						}
-						if len(R[o]) > 0 && len(R[o]) < len(as) {
-							s.fewer[k] = true
 						}
 					}
 				}
